@@ -16,7 +16,7 @@ B: random long programs are recorded and validated by TLC against the trace spec
    (which also carries the logical monitors and checks the refinement at every event).
 """
 from __future__ import annotations
-import copy, random
+import copy, random, time
 from concurrent.futures import ThreadPoolExecutor
 from ..core import Check, MachineryFailure
 from .. import tlc, graph, tracecheck
@@ -53,7 +53,7 @@ def collect_mc(chk: Check, name, res, expect_violation=None):
     elif not res.ok:
         raise MachineryFailure(f"TLC run {name} did not complete: {res.out[-2500:]}")
     chk.add_tlc("mc:" + name, res, exhaustive=not res.violated)
-    chk.note(f"mc {name}: {res.distinct} states, {res.generated} transitions, depth {res.depth}, "
+    chk.note(f"[t+{time.time() - chk.t0:.0f}s] mc {name}: {res.distinct} states, {res.generated} transitions, depth {res.depth}, "
              f"{res.wall:.1f}s, violated={res.violated}")
 
 
@@ -84,7 +84,7 @@ def _signature(sig, rep):
     oret, ost = obs.get("ret") or {}, obs.get("st") or {}
     exp = rep.get("expected") or []
     st = rep.get("state") or {}
-    if isinstance(op, dict):
+    if isinstance(op, dict) and op.get("a"):
         sig["op"] = op.get("a")
         if op.get("a") == "list":
             sig["clause"] = "ListingsExact"
@@ -140,7 +140,7 @@ def replay_graph(chk: Check, g, *, budget, rng, deviate=None, report=True):
             chk.nontrivial.add((g.name, k, o))
         chk.extra["replayed_edges"] = chk.extra.get("replayed_edges", 0) + stats.edges
         chk.extra["impl_states_visited"] = chk.extra.get("impl_states_visited", 0) + len(stats.states_visited)
-        chk.note(f"replay {g.name}: {stats.edges} edges of {g.n_edges}, {len(stats.states_visited)}/{len(g.states)} "
+        chk.note(f"[t+{time.time() - chk.t0:.0f}s] replay {g.name}: {stats.edges} edges of {g.n_edges}, {len(stats.states_visited)}/{len(g.states)} "
                  f"states, mismatches={len(stats.mismatches)}")
         chk.sample({"kind": "replayed-graph", "graph": g.name, "init": init})
     return stats, mism
@@ -249,7 +249,7 @@ def validate_traces(chk: Check, traces, site, report=True, shards=8):
                     chk.nontrivial.add(("trace", ti, li))
         chk.evaluations += nev
         chk.extra["trace_events"] = chk.extra.get("trace_events", 0) + nev
-        chk.note(f"traces[{site}]: {len(traces)} traces, {nev} events, rejected lines={len(rej)}")
+        chk.note(f"[t+{time.time() - chk.t0:.0f}s] traces[{site}]: {len(traces)} traces, {nev} events, rejected lines={len(rej)}")
         chk.sample({"kind": "trace", "cfg": traces[0]["hdr"]["cfg"], "first_events": traces[0]["ev"][:3]})
         for r in rej:
             t = traces[r["trace"]]
@@ -317,7 +317,7 @@ def run(tier: str, seed: int) -> int:
     chk.extra["rule"] = ("MC: all (state, operation) pairs of the bounded lifecycle model. A case is non-trivial and "
                          "distinct when it is a distinct (abstract state, operation) pair executed on the real layer "
                          "and trainers, or a distinct recorded trace event with at least one monitor installed.")
-    d1, d2 = (6, 5) if quick else (8, 7)
+    d1, d2 = (5, 4) if quick else (8, 6)
     mc = [
         ("stdp-neuron-same-d%d" % d1, consts(1, depth=d1), INVS + ["NoRedirect"], None),
         ("stdp-neuron-diffhp-d%d" % (d1 - 1), consts(1, samehp=False, depth=d1 - 1), INVS + ["NoRedirect"], None),
@@ -377,3 +377,37 @@ def run(tier: str, seed: int) -> int:
     canary_trace(chk, (accepted or withstep)[0], clean=bool(accepted))
     canary_replay(chk, first, rng)
     return chk.finish()
+
+
+def replay(path: str) -> int:
+    """./check C15 --replay <path>: re-execute a recorded counterexample on the current tree."""
+    import json
+    data = json.loads(open(path).read())
+    rep = data["replay"]
+    if "init" not in rep:
+        print(f"[C15] replay {path}: specification-level counterexample (TLC output kept in the file), "
+              "nothing to execute on the code")
+        return 0
+    impl = LifecycleImpl(rep["init"])
+    if "ops" in rep:                       # recorded trace: the last operation is the failing one
+        pre, op = rep["ops"][:-1], rep["ops"][-1]
+    else:
+        pre, op = rep.get("path", []), rep.get("op")
+    for o in pre:
+        impl.apply(o)
+    if op is None:                         # the path itself ended in an unexpected state
+        got, want = impl.project(), rep.get("expected_state")
+        ok = graph.canon(got) == graph.canon(want)
+        print(f"[C15] replay {path}: state after path {'matches' if ok else 'DIFFERS from'} the specified state")
+        if not ok:
+            print(f"VIOLATION property=C15 replay={path}")
+        return 0 if ok else 1
+    ret = impl.apply(op)
+    st = impl.project()
+    exp = rep.get("expected") or []
+    ok = any(graph.canon(o["ret"]) == graph.canon(ret) and graph.canon(o["st"]) == graph.canon(st) for o in exp)
+    ok = ok and not _redirected(st)
+    print(f"[C15] replay {path}: op={op} observed ret={ret} -> {'as specified' if ok else 'NOT an outcome of the specification'}")
+    if not ok:
+        print(f"VIOLATION property=C15 replay={path}")
+    return 0 if ok else 1
